@@ -19,9 +19,15 @@ import (
 	"net"
 	"net/netip"
 	"runtime"
+	"strings"
 	"sync"
+	"sync/atomic"
+	"syscall"
 	"testing"
 	"time"
+	"unsafe"
+
+	"github.com/pion/stun/v3"
 )
 
 // vfChunkConn serves a fixed byte stream in chunks given by a partition and
@@ -681,6 +687,15 @@ func TestVerifC14(t *testing.T) { //nolint:cyclop,maintidx
 			r.distinct(fmt.Sprintf("tcpconn-write/wb%d/n%d/max%d", wb, len(accepted)/4, vfC14MaxBucket(lens)))
 		}
 
+		// (H) a new inbound connection of the TCP mux: handleConn reads the first frame (the STUN check that names the ufrag)
+		// itself and hands the rest of the stream to the packet conn's reader.  Whatever the segmentation - in particular
+		// the first frame coalesced with the following ones - the packet conn delivers the first message and then every
+		// following packet, in order, and nothing after the stream ended.
+		nH := e.n(1500, 60000)
+		for i := 0; i < nH; i++ {
+			vfC14MuxFirstFrame(e, r, i)
+		}
+
 		// (F) concurrent senders on one TCP connection: frames must not interleave on the wire
 		nF := e.n(400, 20000)
 		for i := 0; i < nF; i++ {
@@ -736,11 +751,31 @@ func vfC14Loopback(e *vfEnv, r *vfResult, idx int) {
 			}
 		}
 	}
+	// one session in forty has a long pause in the middle of a frame towards the active side (a stalled sender or a
+	// retransmission): more than a second, so that it straddles any short polling deadline a reader might use
+	stallAt, stallFor := -1, time.Duration(0)
+	if idx%40 == 7 {
+		j := rng.IntN(len(toClient))
+		off := 0
+		for k := 0; k < j; k++ {
+			off += 2 + len(toClient[k])
+		}
+		stallAt = off + 1 + rng.IntN(1+len(toClient[j])) // inside the header or the body of frame j
+		stallFor = 1250 * time.Millisecond
+		if e.tier == "thorough" {
+			stallFor += time.Duration(rng.IntN(2250)) * time.Millisecond
+		}
+		r.count("loopback_sessions_with_mid_frame_stall", 1)
+	}
 	type srvRes struct {
 		got [][]byte
 		err error
 	}
 	resCh := make(chan srvRes, 1)
+	var srvConn atomic.Value
+	writerDone := make(chan struct{})
+	release := make(chan struct{})
+	defer close(release)
 	go func() {
 		c, err := ln.Accept()
 		if err != nil {
@@ -749,6 +784,7 @@ func vfC14Loopback(e *vfEnv, r *vfResult, idx int) {
 			return
 		}
 		defer c.Close() //nolint:errcheck
+		srvConn.Store(c)
 		_ = c.SetDeadline(time.Now().Add(20 * time.Second))
 		// writer: frames cut into random segments with yields in between
 		done := make(chan struct{})
@@ -756,16 +792,25 @@ func vfC14Loopback(e *vfEnv, r *vfResult, idx int) {
 			defer close(done)
 			stream, _ := vfC14Frame(toClient)
 			srng := rand.New(rand.NewPCG(uint64(idx), 99)) //nolint:gosec
+			sent := 0
 			for len(stream) > 0 {
 				n := 1 + srng.IntN(min(len(stream), 3000))
+				if stallAt > sent && sent+n > stallAt {
+					n = stallAt - sent
+				}
 				if _, err := c.Write(stream[:n]); err != nil {
 					return
 				}
 				stream = stream[n:]
+				sent += n
+				if sent == stallAt {
+					time.Sleep(stallFor) // the sender (or the network) stalls in the middle of a frame
+				}
 				if srng.IntN(3) == 0 {
 					time.Sleep(time.Duration(srng.IntN(200)) * time.Microsecond)
 				}
 			}
+			close(writerDone) // the whole stream was accepted by the kernel
 		}()
 		var got [][]byte
 		for range toServer {
@@ -780,6 +825,7 @@ func vfC14Loopback(e *vfEnv, r *vfResult, idx int) {
 		}
 		<-done
 		resCh <- srvRes{got: got}
+		<-release // keep the connection open until the verdict: the active side must not see EOF before that
 	}()
 	ctx, cancel := context.WithTimeout(context.Background(), 20*time.Second)
 	defer cancel()
@@ -792,6 +838,32 @@ func vfC14Loopback(e *vfEnv, r *vfResult, idx int) {
 			r.note("activeTCPConn.WriteTo failed: %v", err)
 
 			return
+		}
+	}
+	// the read loop of the active side, as the goroutine dump names it; seen once while it must exist, so that "it is
+	// gone" below is a statement about the session and not about how the code happens to be laid out
+	readers := func() (all, parked int) {
+		for _, g := range strings.Split(vfStacks(), "\n\n") {
+			if strings.Contains(g, "created by github.com/pion/ice/v4.newActiveTCPConn.func1 in goroutine") {
+				all++
+				if strings.Contains(g, ".readStreamingPacket(") && strings.Contains(g, "[IO wait") {
+					parked++
+				}
+			}
+		}
+
+		return all, parked
+	}
+	readerSeen := false
+	if stallAt >= 0 {
+		for i := 0; i < 200 && !readerSeen; i++ {
+			if c, _ := ac.conn.Load().(net.Conn); c != nil {
+				all, _ := readers()
+				readerSeen = all == 1
+			}
+			if !readerSeen {
+				time.Sleep(5 * time.Millisecond)
+			}
 		}
 	}
 	for k, p := range toClient {
@@ -809,11 +881,62 @@ func vfC14Loopback(e *vfEnv, r *vfResult, idx int) {
 
 				return
 			}
-		case <-time.After(20 * time.Second):
-			r.inconclusive(1)
-			r.note("activeTCPConn.ReadFrom: no packet within 20 s (loopback)")
+		case <-time.After(3 * time.Second):
+			// Nothing for 3 s.  Decide on the state of the stream, not on the clock: if the peer has written everything,
+			// every byte has left its send queue, the active side's socket holds no unread byte and the read loop is
+			// parked waiting for more, then the bytes of this packet were consumed and not delivered.
+			why := ""
+			lost := func() bool {
+				select {
+				case <-writerDone:
+				default:
+					why = "peer still writing"
 
-			return
+					return false
+				}
+				if !readerSeen || len(ch) != 0 {
+					why = fmt.Sprintf("reader identified=%v delivered=%d", readerSeen, len(ch))
+
+					return false
+				}
+				all, parked := readers()
+				if all == 0 {
+					why = "read loop ended"
+
+					return true // (b) the read loop gave up although the peer neither closed nor sent anything malformed
+				}
+				sc, _ := srvConn.Load().(net.Conn)
+				cc, _ := ac.conn.Load().(net.Conn)
+				outq, ok1 := vfSockQueue(sc, syscall.TIOCOUTQ)
+				inq, ok2 := vfSockQueue(cc, syscall.TIOCINQ)
+				why = fmt.Sprintf("outq=%d(%v) inq=%d(%v) readers=%d parked=%d", outq, ok1, inq, ok2, all, parked)
+
+				// (a) everything was consumed and the read loop waits for more
+				return ok1 && ok2 && outq == 0 && inq == 0 && all == 1 && parked == 1
+			}
+			verdict := lost()
+			for i := 0; i < 40 && verdict; i++ { // the same state, seen again and again over two more seconds
+				time.Sleep(50 * time.Millisecond)
+				verdict = lost()
+			}
+			if verdict {
+				r.violation("active-bytes-consumed-not-delivered", fmt.Sprintf("activeTCPConn: packet %d (len %d) never came out of ReadFrom although the peer has sent a well-formed stream completely and keeps the connection open (%s; mid-frame stall of %v in this session)", k, len(p), why, stallFor), map[string]any{"idx": idx, "stall_ms": stallFor.Milliseconds(), "state": why})
+
+				return
+			}
+			select {
+			case x := <-ch:
+				if x.err != nil || x.n != len(p) || !bytes.Equal(buf[:x.n], p) {
+					r.violation("active-sequence", fmt.Sprintf("activeTCPConn.ReadFrom packet %d (len %d): n=%d err=%v", k, len(p), x.n, x.err), map[string]any{"idx": idx})
+
+					return
+				}
+			case <-time.After(17 * time.Second):
+				r.inconclusive(1)
+				r.note("activeTCPConn.ReadFrom: no packet within 20 s (loopback): %s", why)
+
+				return
+			}
 		}
 	}
 	select {
@@ -931,4 +1054,145 @@ func vfC14Concurrent(e *vfEnv, r *vfResult, idx int) {
 		r.violation("concurrent-frames-interleaved", fmt.Sprintf("%d writers x %d packets on one TCP connection: the wire deframes into %d packets with %d trailing bytes; sent multiset not reproduced", writers, per, n, len(stream)-pos),
 			map[string]any{"idx": idx, "writers": writers, "per_writer": per})
 	}
+}
+
+// vfIdleListener never accepts anything: the connections of part (H) are handed to handleConn directly.
+type vfIdleListener struct {
+	ch   chan struct{}
+	once sync.Once
+}
+
+func (l *vfIdleListener) Accept() (net.Conn, error) {
+	<-l.ch
+
+	return nil, net.ErrClosed
+}
+func (l *vfIdleListener) Close() error   { l.once.Do(func() { close(l.ch) }); return nil }
+func (l *vfIdleListener) Addr() net.Addr { return &net.TCPAddr{IP: net.IPv4(10, 0, 0, 1), Port: 7000} }
+
+func vfC14MuxFirstFrame(e *vfEnv, r *vfResult, idx int) { //nolint:cyclop
+	rng := e.rng(idx, "muxfirstframe")
+	ufrag := fmt.Sprintf("hfrag%04d%c", idx%10000, 'a'+rune(rng.IntN(26)))
+	// first message: a Binding request naming the ufrag, 28..~400 bytes
+	setters := []stun.Setter{stun.BindingRequest, stun.TransactionID, stun.NewUsername(ufrag + ":peer")}
+	if rng.IntN(2) == 0 {
+		setters = append(setters, PriorityAttr(rng.Uint32()))
+	}
+	if rng.IntN(3) == 0 {
+		setters = append(setters, stun.NewSoftware(strings.Repeat("s", 1+rng.IntN(300))))
+	}
+	if rng.IntN(2) == 0 {
+		setters = append(setters, stun.NewShortTermIntegrity("pwdpwdpwdpwdpwdpwdpwdpwd"), stun.Fingerprint)
+	}
+	msg, err := stun.Build(setters...)
+	if err != nil {
+		r.violation("harness:stun-build", err.Error(), nil)
+
+		return
+	}
+	hostile := ""
+	first := append([]byte{}, msg.Raw...)
+	switch rng.IntN(12) {
+	case 0:
+		hostile = "garbage"
+		first = make([]byte, 1+rng.IntN(200))
+		for j := range first {
+			first[j] = byte(rng.IntN(256))
+		}
+	case 1:
+		hostile = "no-username"
+		m2, _ := stun.Build(stun.BindingRequest, stun.TransactionID, PriorityAttr(7))
+		first = append([]byte{}, m2.Raw...)
+	case 2:
+		hostile = "longer-than-512"
+		m2, _ := stun.Build(stun.BindingRequest, stun.TransactionID, stun.NewUsername(ufrag+":peer"), stun.NewSoftware(strings.Repeat("s", 600)))
+		first = append([]byte{}, m2.Raw...)
+	}
+	pkts := vfC14Packets(rng, 8192)
+	stream, segEnds := vfC14Frame(append([][]byte{first}, pkts...))
+	chunks, kind := vfC14Partition(rng, len(stream))
+	if rng.IntN(3) == 0 {
+		// the segmentation that matters most here: the first frame arrives together with what follows it
+		k := 2 + len(first) + rng.IntN(len(stream)-2-len(first)+1)
+		chunks, kind = []int{k}, "first-frame-coalesced"
+	}
+	cc := &vfChunkConn{stream: stream, chunks: chunks, segEnds: segEnds, remote: &net.TCPAddr{IP: net.IPv4(10, 9, byte(rng.IntN(250)), 3), Port: 1000 + rng.IntN(60000)}}
+	ln := &vfIdleListener{ch: make(chan struct{})}
+	mux := NewTCPMuxDefault(TCPMuxParams{Listener: ln, Logger: vfQuietLogger().NewLogger("ice"), ReadBufferSize: rng.IntN(8)})
+	defer func() {
+		_ = ln.Close()
+		_ = mux.Close()
+	}()
+	wit := map[string]any{"idx": idx, "partition": kind, "first_len": len(first), "hostile_first": hostile, "packets": len(pkts)}
+	if pn := vfRecover(func() { mux.handleConn(cc) }); pn != "" {
+		r.violation("mux-first-frame-panic", pn, wit)
+
+		return
+	}
+	r.eval(1)
+	r.distinct(fmt.Sprintf("muxfirst/%s/h=%s/n%d/first%d", kind, hostile, len(pkts)/4, len(first)/100))
+	if hostile != "" {
+		// nothing usable came first: the connection is dropped and no packet conn appears for it
+		mux.mu.Lock()
+		nConns := len(mux.connsIPv4) + len(mux.connsIPv6)
+		mux.mu.Unlock()
+		cc.mu.Lock()
+		closed := cc.closed
+		cc.mu.Unlock()
+		if nConns != 0 || !closed {
+			r.violation("mux-first-frame-hostile-accepted", fmt.Sprintf("first frame %q: connection closed=%v, packet conns in the mux=%d", hostile, closed, nConns), wit)
+		}
+		r.count("c14_mux_hostile_first_frames", 1)
+
+		return
+	}
+	pc, err := mux.GetConnByUfrag(ufrag, false, net.IPv4(10, 0, 0, 1))
+	if err != nil {
+		r.violation("mux-first-frame-conn", err.Error(), wit)
+
+		return
+	}
+	want := append([][]byte{first}, pkts...)
+	for k, p := range want {
+		buf := make([]byte, 8192)
+		n, addr, err := pc.ReadFrom(buf)
+		if err != nil || n != len(p) || !bytes.Equal(buf[:n], p) || addr == nil || addr.String() != cc.RemoteAddr().String() {
+			wit["packet"] = k
+			r.violation("mux-first-frame-sequence:"+kind, fmt.Sprintf("history %d (%s): packet %d of %d behind the first frame (want len %d): n=%d addr=%v err=%v", idx, kind, k, len(want), len(p), n, addr, err), wit)
+
+			return
+		}
+	}
+	buf := make([]byte, 8192)
+	if n, _, err := pc.ReadFrom(buf); err == nil {
+		r.violation("mux-first-frame-fabricated", fmt.Sprintf("ReadFrom returned %d bytes after the stream ended", n), wit)
+	}
+	if cc.overRead != "" {
+		r.violation("read-overread:handleConn", cc.overRead, wit)
+	}
+	r.count("c14_mux_first_frame_histories", 1)
+	if kind == "first-frame-coalesced" {
+		r.count("c14_mux_first_frame_coalesced", 1)
+	}
+}
+
+// vfSockQueue asks the kernel for the number of unsent (TIOCOUTQ) or unread (TIOCINQ) bytes of a TCP socket.
+func vfSockQueue(c net.Conn, req uintptr) (int, bool) {
+	sc, ok := c.(syscall.Conn)
+	if !ok {
+		return 0, false
+	}
+	rc, err := sc.SyscallConn()
+	if err != nil {
+		return 0, false
+	}
+	var v int32
+	var errno syscall.Errno
+	if err := rc.Control(func(fd uintptr) {
+		_, _, errno = syscall.Syscall(syscall.SYS_IOCTL, fd, req, uintptr(unsafe.Pointer(&v))) //nolint:gosec
+	}); err != nil || errno != 0 {
+		return 0, false
+	}
+
+	return int(v), true
 }
